@@ -81,6 +81,7 @@ func init() {
 	register("C10", "other", checkC10)
 	register("C13", "proof", checkC13)
 	register("C05", "other", checkC05)
+	register("C11", "other", checkC11)
 	register("C01", "other", checkC01)
 	register("C18", "other", checkC18)
 	register("C12", "other", checkC12)
